@@ -74,3 +74,11 @@ Print Assumptions C13_utf8_ascii.
 Theorem C13_utf8_prefix : forall fuel k l p, utf8_take_f fuel k l = Some p -> exists r, l = p ++ r.
 Proof. exact utf8_take_prefix. Qed.
 Print Assumptions C13_utf8_prefix.
+
+(* the premise of abstracting from time in this property's model: the code it models waits, polls and gives up
+   exactly where the model says (primitive codes in Proofs/W_*.v); re-extracted from the source on every run *)
+Require Import GV.Gen.Consts GV.Proofs.W_protocol GV.Proofs.W_client.
+Theorem C13_time_abstraction : waits_protocol = (@nil Z) /\ waits_client = (@nil Z).
+Proof. exact (conj w_protocol w_client). Qed.
+Check C13_time_abstraction : waits_protocol = (@nil Z) /\ waits_client = (@nil Z).
+Print Assumptions C13_time_abstraction.
